@@ -3,11 +3,27 @@
 import json, subprocess, os
 HERE = os.path.dirname(os.path.dirname(os.path.abspath(__file__)))
 
+TECH = 'weakest-precondition VCs over go/ssa of the real functions + contracts in //@ comments, discharged by z3/cvc5'
+TRUST = "Trusted: go/ssa lowering and the engine's SSA->SMT translation; solver soundness; the assumed contracts of external/interface functions listed in the evidence (io.Reader/net.Conn, bytes.Buffer, strconv, errors/fmt, go-tracing, handler interfaces). Sequential semantics only."
 CLAIMED = {
- # id: (level text, level_note, technique, design_ref)
+ "C03": ("receive is proved to keep 'replies == requests' (ghost counters: frames written by responseMessage vs. values returned by the parser) at the loop head - the only place it reads from the transport - and at every return (QUIT, end of stream, parser error); responseMessage writes exactly one frame on every path; every loop of every executor and argument reader has a discharged termination measure (the ZADD option loop included); all for arbitrary requests, chunkings and handler results.",
+         TRUST + " Not decided: a client that stops reading (blocking Write) and TCP back-pressure.", TECH, "DESIGN.md §9 C03"),
+ "C04": ("The only Write to the client is in responseMessage and its argument is proved to be the RESPBytes output of a non-nil message (also for nil replies and for replies that cannot be serialized); RESPBytes is proved to produce a type byte, no CR/LF inside simple-string/error/integer text for ANY payload bytes, and a CRLF terminator; bulk frames carry decimal(len) CRLF payload CRLF with the payload copied byte for byte; array frames start with '*' decimal(count) CRLF and end with a CRLF.",
+         TRUST + " The full recursive grammar of nested array frames is not a single obligation: each element is appended as the proved RESPBytes output of that element.", TECH, "DESIGN.md §9 C04"),
  "C06": ("Every obligation generated from the real SSA of redis/proto's parser (nil/bounds/alloc/div panics, the postcondition 'value | clean end of stream | error', 'no nil element in a returned array', loop invariants, termination measures of every loop and of the Next/nextArrayMessage/newArrayWithParser recursion, allocation bounds) is discharged by SMT for all byte streams, all declared lengths (full int64 range) and all read-size sequences; no bound.",
-         "Trusted: go/ssa lowering and the engine's SSA->SMT translation; solver soundness; assumed io.Reader contract (progress, no data together with an error), strconv.Atoi total; slices <= 2^40 elements, stream <= 2^44 bytes. Nested arrays: the no-nil-element clause is proved for each Next result at its return (objects returned by the parser are never written again by parser code); the hereditary statement is that argument, not a separate obligation.",
-         "weakest-precondition VCs over go/ssa of the real functions + contracts in //@ comments, discharged by z3/cvc5", "DESIGN.md §9 C06"),
+         TRUST + " Nested arrays: the no-nil-element clause is proved for each Next result at its return; the hereditary statement is that argument, not a separate obligation.", TECH, "DESIGN.md §9 C06"),
+ "C07": ("Zero-annotation safety sweep (nil dereference, index/slice bounds, allocation size, division, type assertion, nil-map write, explicit panic) plus contract obligations over every function on the request path of package redis, redis/proto and redis/glob - the connection loop, dispatch, all 67 registered executors, all argument readers, constructors and serializers - for arbitrary client bytes and arbitrary handler results (nil messages, arrays with nil elements, array messages without array included); every obligation discharged.",
+         TRUST + " Not decided: that other connections keep receiving exact replies (a corollary of no-panic plus per-connection state, not explored), disconnect timing, the bundled example store as handler (claimed separately when its contracts discharge).", TECH, "DESIGN.md §9 C07"),
+ "C08": ("Gate: the dynamic call of an executor in executeCommand is reachable only under 'conn.authrized || upper(cmd) == AUTH' (a precondition of the generic executor contract checked at the call site); new connections start unauthorized; every executor, handleMessage and receive preserve 'authrized gained ==> an AUTH succeeded' (ghost authed), receive keeps 'authrized ==> !passwordRequired || authed'; Auth sets the flag only after Authenticate returned true, leaves it unchanged on error, and stores the presented password as present even when empty.",
+         TRUST + " Assumed: the authenticator chain installed at Start compares the presented password with the configured one (auth package contracts pending); interleavings of several connections are covered by the frame (only the issuing Conn is written), not explored.", TECH, "DESIGN.md §9 C08"),
+ "C11": ("Parser functions are proved against a ghost stream with an arbitrary end position S_end: a bulk body is returned only if all num+2 bytes were delivered, an array only if every element was (end of stream inside an array is an error), so a request cut at any byte offset is never returned as a value; receive calls handleMessage only with a value Next returned without error, and at every exit the socket is closed and the registry no larger than on entry.",
+         TRUST + " Line-type values at end of stream without CRLF are accepted by the parser (the existing tests require it); valid client requests end with a bulk body, for which completeness is proved.", TECH, "DESIGN.md §9 C11"),
+ "C13": ("Frame obligations: every executor, executeCommand and handleMessage are proved to write no Conn field except id/authrized/username/password/hasPassword of the conn parameter (and argument cursors, string maps, ghost logs); newConnWith returns a fresh object with id 0, unauthorized, empty credentials; Database/SetDatabase/Select read and write exactly the receiver's field.",
+         TRUST + " Concurrency: other connections run the same code on their own Conn object; that no other goroutine writes this Conn is an ownership argument from these frames, not an explored interleaving.", TECH, "DESIGN.md §9 C13"),
+ "C19": ("receive is proved to leave the socket closed (ghost sock_closed set by net.Conn.Close) and the registry domain no larger than on entry at every return: certificate rejection, parser error, end of stream, QUIT; Close is idempotent; AddConn/RemoveConn add and remove exactly the connection's uuid.",
+         TRUST + " Not decided: a client that stops reading, RST timing, goroutine/descriptor counts under churn, ConnManager.Close/Stop and the accept loops (pending).", TECH, "DESIGN.md §9 C19"),
+ "C20": ("Ghost span stack: the root span is started only when none is open and finished exactly once with no child open on every path of the connection loop; executeCommand and every executor restore the child depth (defer FinishSpan pairs with StartSpan on all paths, composed commands re-enter executeCommand under the same contract).",
+         TRUST + " Assumed: go-tracing contexts behave as a span stack (contract in external.contracts).", TECH, "DESIGN.md §9 C20"),
 }
 
 NOT_APPLICABLE = {
